@@ -49,7 +49,7 @@ macro_rules! fin {
 }
 
 // ---------------------------------------------------------------- C10: integer comparisons
-// @unit tier=q fn=try_lt,try_gt,try_le,try_ge,eq_lossy
+// @unit tier=q float=1 fn=try_lt,try_gt,try_le,try_ge,eq_lossy
 #[kani::proof]
 #[kani::unwind(2)]
 fn c10_int_cmp() {
@@ -72,7 +72,7 @@ fn c10_int_cmp() {
 }
 
 // ---------------------------------------------------------------- C10: float comparisons
-// @unit tier=q fn=try_lt,try_gt,try_le,try_ge,eq_lossy
+// @unit tier=q float=1 fn=try_lt,try_gt,try_le,try_ge,eq_lossy
 #[kani::proof]
 #[kani::unwind(2)]
 fn c10_float_cmp() {
@@ -95,7 +95,7 @@ fn c10_float_cmp() {
 }
 
 // ---------------------------------------------------------------- C10: mixed int/float ==
-// @unit tier=q fn=eq_lossy,try_lt,try_gt
+// @unit tier=q float=1 fn=eq_lossy,try_lt,try_gt
 #[kani::proof]
 #[kani::unwind(2)]
 fn c10_mixed_eq() {
@@ -113,7 +113,7 @@ fn c10_mixed_eq() {
 }
 
 // ---------------------------------------------------------------- C11: integer arithmetic
-// @unit tier=q fn=try_add,try_sub,try_mul
+// @unit tier=q float=1 fn=try_add,try_sub,try_mul
 #[kani::proof]
 #[kani::unwind(2)]
 fn c11_int_arith() {
@@ -129,39 +129,7 @@ fn c11_int_arith() {
     fin!(add, sub, mul);
 }
 
-// @unit tier=q fn=try_rem
-#[kani::proof]
-#[kani::unwind(2)]
-fn c11_int_rem() {
-    let a: i64 = kani::any();
-    let b: i64 = kani::any();
-    let rem = int(a).try_rem(int(b));
-    if b == 0 {
-        assert!(is_div0(&rem), "C11.int.rem_zero: Integer % 0 fails with divide-by-zero");
-    } else {
-        assert!(as_int(&rem) == Some(a.wrapping_rem(b)), "C11.int.rem: Integer % Integer is the wrapping truncated remainder");
 
-
-
-    }
-    kani::cover!(a == i64::MIN && b == -1, "C11.int.cover_min_rem_neg1");
-    fin!(rem);
-}
-
-// @unit tier=q float=1 fn=try_div
-#[kani::proof]
-#[kani::unwind(2)]
-fn c11_int_div() {
-    let a: i64 = kani::any();
-    let b: i64 = kani::any();
-    let div = int(a).try_div(int(b));
-    if b == 0 {
-        assert!(is_div0(&div), "C11.int.div_zero: Integer / 0 fails with divide-by-zero");
-    } else {
-        assert!(as_float(&div) == Some(a as f64 / b as f64), "C11.int.div_float: Integer / Integer yields Float(a as f64 / b as f64)");
-    }
-    fin!(div);
-}
 
 // ---------------------------------------------------------------- C11: float arithmetic
 fn check_float_result(r: &Result<Value, ValueError>, expect: f64) -> bool {
@@ -223,35 +191,7 @@ fn c11_float_mul() {
     fin!(r);
 }
 
-// @unit tier=t float=1 fn=try_div,float_result timeout=1500
-#[kani::proof]
-#[kani::unwind(2)]
-fn c11_float_div() {
-    let a = any_non_nan();
-    let b = any_non_nan();
-    let r = flt(a).try_div(flt(b));
-    if b == 0.0 {
-        assert!(is_div0(&r), "C11.float.div_zero: division by 0.0 or -0.0 fails with divide-by-zero");
-    } else {
-        assert!(check_float_result(&r, a / b), "C11.float.div: Float / Float == IEEE quotient, error iff NaN");
-    }
-    fin!(r);
-}
 
-// @unit tier=q float=1 fn=try_rem,float_result
-#[kani::proof]
-#[kani::unwind(2)]
-fn c11_float_rem() {
-    let a = any_non_nan();
-    let b = any_non_nan();
-    let r = flt(a).try_rem(flt(b));
-    if b == 0.0 {
-        assert!(is_div0(&r), "C11.float.rem_zero: remainder by 0.0 fails with divide-by-zero");
-    } else {
-        assert!(check_float_result(&r, a % b), "C11.float.rem: Float % Float == IEEE fmod, error iff NaN");
-    }
-    fin!(r);
-}
 
 // mixed: int∘float == float op on converted integer (add/sub/mul/div), both operand orders
 // @unit tier=q float=1 fn=try_add,try_sub
@@ -284,30 +224,10 @@ fn c11_mixed_mul() {
     fin!(r1, r2);
 }
 
-// @unit tier=t float=1 fn=try_div timeout=1500
-#[kani::proof]
-#[kani::unwind(2)]
-fn c11_mixed_div() {
-    let a: i64 = kani::any();
-    let b = any_non_nan();
-    let r1 = int(a).try_div(flt(b));
-    let r2 = flt(b).try_div(int(a));
-    if b == 0.0 {
-        assert!(is_div0(&r1), "C11.mixed.div_if_zero: Integer / 0.0 fails with divide-by-zero");
-    } else {
-        assert!(check_float_result(&r1, a as f64 / b), "C11.mixed.div_if: Integer / Float == (a as f64) / b");
-    }
-    if a == 0 {
-        assert!(is_div0(&r2), "C11.mixed.div_fi_zero: Float / 0 fails with divide-by-zero");
-    } else {
-        assert!(check_float_result(&r2, b / a as f64), "C11.mixed.div_fi: Float / Integer == b / (a as f64)");
-    }
-    fin!(r1, r2);
-}
 
 // string * n clamp: the closure is local to try_mul, so the contract is observed through the
 // result length for the empty and 1-byte strings (loop-free for those: repeat(0)/len).
-// @unit tier=q fn=try_mul bounded="n<=2,1-byte-string"
+// @unit tier=q float=1 fn=try_mul bounded="n<=2,1-byte-string"
 #[kani::proof]
 #[kani::unwind(3)]
 fn c11_bytes_mul_clamp() {
@@ -491,4 +411,129 @@ fn k_try_and_table() {
     let r6 = Value::Integer(i).try_and(Value::Boolean(b));
     assert!(matches!(&r6, Err(ValueError::And(..))), "C09.try_and.type_error_lhs: non-boolean && x is an And type error");
     fin!(r1, r2, r3, r4, r5, r6);
+}
+
+
+// ---------------------------------------------------------------- C11: division / remainder, decomposed
+// Full-domain miters over two 64-bit dividers do not finish (measured: > 30 min each), so the
+// contract is split: (1) classification over the FULL domain (which arm, error iff divisor zero,
+// NaN never returned), (2) result equality on a restricted-mantissa domain (labelled bounded).
+fn low_bits_zero(f: f64, keep: u32) -> bool {
+    (f.to_bits() & ((1u64 << (52 - keep)) - 1)) == 0
+}
+
+// @unit tier=q float=1 fn=try_div,float_result
+#[kani::proof]
+#[kani::unwind(2)]
+fn c11_float_div_class() {
+    let a = any_non_nan();
+    let b = any_non_nan();
+    let r = flt(a).try_div(flt(b));
+    if b == 0.0 {
+        assert!(is_div0(&r), "C11.float.div_zero_full: division by 0.0 or -0.0 fails with divide-by-zero (all non-NaN operands)");
+    } else {
+        let both_inf = a.is_infinite() && b.is_infinite();
+        assert!(is_nan_err(&r) == both_inf, "C11.float.div_nan_class: Float / Float fails with NaN exactly for inf/inf");
+        assert!(both_inf || matches!(as_float(&r), Some(v) if !v.is_nan()), "C11.float.div_never_nan: otherwise the result is a non-NaN Float");
+    }
+    fin!(r);
+}
+
+// @unit tier=t float=1 fn=try_div timeout=1500 bounded="operands with at most 6 significant mantissa bits"
+#[kani::proof]
+#[kani::unwind(2)]
+fn c11_float_div_value_bounded() {
+    let a = any_non_nan();
+    let b = any_non_nan();
+    kani::assume(low_bits_zero(a, 6) && low_bits_zero(b, 6) && b != 0.0);
+    let r = flt(a).try_div(flt(b));
+    assert!(check_float_result(&r, a / b), "C11.float.div_value: Float / Float == IEEE quotient (restricted mantissas)");
+    fin!(r);
+}
+
+// @unit tier=q float=1 fn=try_rem,float_result
+#[kani::proof]
+#[kani::unwind(2)]
+fn c11_float_rem_class() {
+    let a = any_non_nan();
+    let b = any_non_nan();
+    let r = flt(a).try_rem(flt(b));
+    if b == 0.0 {
+        assert!(is_div0(&r), "C11.float.rem_zero_full: remainder by 0.0 or -0.0 fails with divide-by-zero (all non-NaN operands)");
+    } else {
+        assert!(is_nan_err(&r) || matches!(as_float(&r), Some(v) if !v.is_nan()), "C11.float.rem_never_nan: Float % Float is a non-NaN Float or the NaN error");
+    }
+    fin!(r);
+}
+
+// @unit tier=q float=1 fn=try_div
+#[kani::proof]
+#[kani::unwind(2)]
+fn c11_int_div_class() {
+    let a: i64 = kani::any();
+    let b: i64 = kani::any();
+    let div = int(a).try_div(int(b));
+    if b == 0 {
+        assert!(is_div0(&div), "C11.int.div_zero_full: Integer / 0 fails with divide-by-zero");
+    } else {
+        assert!(matches!(as_float(&div), Some(v) if !v.is_nan()), "C11.int.div_is_float: Integer / Integer always yields a non-NaN Float");
+    }
+    fin!(div);
+}
+
+// @unit tier=t float=1 fn=try_div timeout=1500 bounded="|a|,|b| < 2^6"
+#[kani::proof]
+#[kani::unwind(2)]
+fn c11_int_div_value_bounded() {
+    let a: i64 = kani::any();
+    let b: i64 = kani::any();
+    kani::assume(a > -64 && a < 64 && b > -64 && b < 64 && b != 0);
+    let div = int(a).try_div(int(b));
+    assert!(as_float(&div) == Some(a as f64 / b as f64), "C11.int.div_value: Integer / Integer == (a as f64) / (b as f64) (|a|,|b| < 2^6)");
+    fin!(div);
+}
+
+// @unit tier=q float=1 fn=try_rem
+#[kani::proof]
+#[kani::unwind(2)]
+fn c11_int_rem_class() {
+    let a: i64 = kani::any();
+    let b: i64 = kani::any();
+    let rem = int(a).try_rem(int(b));
+    if b == 0 {
+        assert!(is_div0(&rem), "C11.int.rem_zero_full: Integer % 0 fails with divide-by-zero");
+    } else {
+        assert!(as_int(&rem).is_some(), "C11.int.rem_is_int: Integer % non-zero Integer always yields an Integer (no panic at i64::MIN % -1)");
+    }
+    kani::cover!(a == i64::MIN && b == -1, "C11.int.cover_min_rem_neg1_b");
+    fin!(rem);
+}
+
+// @unit tier=q float=1 fn=try_rem bounded="|a|,|b| < 2^15"
+#[kani::proof]
+#[kani::unwind(2)]
+fn c11_int_rem_value_bounded() {
+    let a: i64 = kani::any();
+    let b: i64 = kani::any();
+    kani::assume(a > -32768 && a < 32768 && b > -32768 && b < 32768 && b != 0);
+    let rem = int(a).try_rem(int(b));
+    assert!(as_int(&rem) == Some(a.wrapping_rem(b)), "C11.int.rem_value: Integer % Integer == wrapping truncated remainder (|a|,|b| < 2^15)");
+    let r = a.wrapping_rem(b);
+    assert!(r == 0 || (r < 0) == (a < 0), "C11.int.rem_sign: remainder is zero or has the sign of the dividend");
+    fin!(rem);
+}
+
+// @unit tier=q float=1 fn=try_div
+#[kani::proof]
+#[kani::unwind(2)]
+fn c11_mixed_div_class() {
+    let a: i64 = kani::any();
+    let b = any_non_nan();
+    let r1 = int(a).try_div(flt(b));
+    let r2 = flt(b).try_div(int(a));
+    assert!(is_div0(&r1) == (b == 0.0), "C11.mixed.div_if_zero_full: Integer / Float fails with divide-by-zero iff the float is 0.0/-0.0");
+    assert!(is_div0(&r2) == (a == 0), "C11.mixed.div_fi_zero_full: Float / Integer fails with divide-by-zero iff the integer is 0");
+    assert!(b == 0.0 || is_nan_err(&r1) || matches!(as_float(&r1), Some(v) if !v.is_nan()), "C11.mixed.div_if_never_nan: Integer / Float is a non-NaN Float or the NaN error");
+    assert!(a == 0 || is_nan_err(&r2) || matches!(as_float(&r2), Some(v) if !v.is_nan()), "C11.mixed.div_fi_never_nan: Float / Integer is a non-NaN Float or the NaN error");
+    fin!(r1, r2);
 }
